@@ -392,6 +392,171 @@ impl Gen {
         self.push(st);
     }
 
+    fn boundary(&mut self, h: usize) -> usize {
+        let ml = self.ml(h);
+        let w = *self.rng.pick(&[8usize, 64, 128, WORD_BITS[self.tids[h] as usize]]);
+        let kmax = (ml / w).max(1);
+        (w * (1 + self.rng.below(kmax as u64) as usize)).min(ml)
+    }
+
+    fn step_resize(&mut self, h: usize, to: usize, bit: bool) {
+        let mut st = Step::new(Kind::Resize, h as u8);
+        st.a = to.min(self.ml(h)) as u64;
+        st.bit = bit;
+        self.plen[h] = st.a as usize;
+        self.push(st);
+    }
+
+    fn step_simple(&mut self, kind: Kind, h: usize, a: u64, bit: bool) {
+        let mut st = Step::new(kind, h as u8);
+        st.a = a;
+        st.bit = bit;
+        self.push(st);
+    }
+
+    fn small_growth(&mut self, h: usize) {
+        // cross a boundary by small steps that write single bits (push / short extend / shift-in)
+        match self.rng.below(3) {
+            0 => {
+                for _ in 0..1 + self.rng.below(3) {
+                    let b = self.rng.bool();
+                    self.step_simple(Kind::Push, h, 0, b);
+                    self.plen[h] = (self.plen[h] + 1).min(self.ml(h));
+                }
+            }
+            1 => {
+                let mut st = Step::new(Kind::Extend, h as u8);
+                let k = 1 + self.rng.below(4) as usize;
+                st.items = self.bits(k);
+                self.plen[h] = (self.plen[h] + k).min(self.ml(h));
+                self.push(st);
+            }
+            _ => {
+                let b = self.rng.bool();
+                self.step_simple(Kind::Push, h, 0, b);
+                self.plen[h] = (self.plen[h] + 1).min(self.ml(h));
+                let b2 = self.rng.bool();
+                let k = if self.rng.bool() { Kind::ShlIn } else { Kind::ShrIn };
+                self.step_simple(k, h, 0, b2);
+            }
+        }
+    }
+
+    fn zero_growth(&mut self, h: usize) {
+        let n = self.plen[h];
+        let d = *self.rng.pick(&[1usize, 5, 27, 63, 64, 70]);
+        match self.rng.below(4) {
+            0 | 1 => self.step_resize(h, n + d, false),
+            2 => {
+                self.step_simple(Kind::SignExtend, h, (n + d).min(self.ml(h)) as u64, false);
+                self.plen[h] = (n + d).min(self.ml(h));
+            }
+            _ => {
+                let mut st = Step::new(Kind::Append, h as u8);
+                st.opnd = Opnd::Fresh { tid: *self.rng.pick(&OPERAND_TIDS), bits: vec![false; d.min(24)] };
+                self.plen[h] = (n + d.min(24)).min(self.ml(h));
+                self.push(st);
+            }
+        }
+    }
+
+    /// a short chain of dependent steps on ONE holder: the multi-step shapes that uniform choice rarely lines up
+    pub fn motif(&mut self, h: usize) -> usize {
+        let start = self.steps.len();
+        let growable = FIXED_CAP[self.tids[h] as usize].is_none();
+        match self.rng.below(5) {
+            0 => {
+                // spare capacity, fill with ones up to a boundary, creep across it, then zero-fill growth
+                if growable {
+                    match self.rng.below(3) {
+                        0 => {
+                            let a = 64 + self.rng.below(300);
+                            self.step_simple(Kind::Reserve, h, a, false)
+                        }
+                        1 => {
+                            let a = *self.rng.pick(&[129u64, 200, 256, 640]);
+                            self.step_simple(Kind::WithCapacity, h, a, false);
+                            self.plen[h] = 0;
+                        }
+                        _ => {
+                            let b = self.boundary(h);
+                            self.step_resize(h, b + 70, true);
+                            self.step_simple(Kind::Truncate, h, 3, false);
+                            self.plen[h] = 3;
+                        }
+                    }
+                }
+                let b = self.boundary(h);
+                let off = self.rng.below(3) as usize;
+                self.step_resize(h, (b + 1).saturating_sub(off), true);
+                self.small_growth(h);
+                self.zero_growth(h);
+            }
+            1 => {
+                // shrink exactly to a boundary with ones above it, regrow a little, then zero-fill growth
+                let b = self.boundary(h);
+                let d = 1 + self.rng.below(70) as usize;
+                self.step_resize(h, b + d, true);
+                match self.rng.below(3) {
+                    0 => self.step_resize(h, b, false),
+                    1 => {
+                        self.step_simple(Kind::Truncate, h, b as u64, false);
+                        self.plen[h] = b.min(self.plen[h]);
+                    }
+                    _ => {
+                        self.step_simple(Kind::SplitOff, h, b as u64, false);
+                        self.plen[h] = b.min(self.plen[h]);
+                    }
+                }
+                if self.rng.bool() {
+                    self.small_growth(h);
+                }
+                self.zero_growth(h);
+            }
+            2 => {
+                // pop a One sitting just above a boundary, then zero-fill growth
+                let b = self.boundary(h);
+                self.step_resize(h, b + 1, true);
+                self.step_simple(Kind::Pop, h, 0, false);
+                self.plen[h] = self.plen[h].saturating_sub(1);
+                self.zero_growth(h);
+            }
+            3 => {
+                // an operand with a history (spare capacity, heap storage) used by another holder
+                let o = self.any_holder();
+                if FIXED_CAP[self.tids[o] as usize].is_none() {
+                    let a = 64 + self.rng.below(400);
+                    self.step_simple(Kind::Reserve, o, a, false);
+                    if self.rng.bool() {
+                        self.step_simple(Kind::Not, o, 0, false);
+                    }
+                }
+                let kind = *self.rng.pick(&[Kind::Append, Kind::Prepend, Kind::Insert, Kind::Binop, Kind::DivRem]);
+                let mut st = Step::new(kind, h as u8);
+                st.a = self.rng.next();
+                st.form = self.rng.below(4) as u8;
+                st.bit = self.rng.bool();
+                st.opnd = Opnd::Holder { h: o as u8 };
+                self.push(st);
+            }
+            _ => {
+                // values with a zero low word and a set high word, ones runs ending at a boundary
+                let b = self.boundary(h);
+                let f1 = self.rng.bool();
+                self.step_resize(h, b, f1);
+                let d = 1 + self.rng.below(64) as usize;
+                let f2 = self.rng.bool();
+                self.step_resize(h, b + d, f2);
+                if growable && self.rng.bool() {
+                    let a = self.rng.below(100);
+                    let f = self.rng.bool();
+                    self.step_simple(Kind::PromoteDemote, h, a, f);
+                }
+            }
+        }
+        self.steps.len() - start
+    }
+
     pub fn script(&mut self) -> Vec<Dec> {
         let c = self.cfg;
         if !(c.short || c.eintr || c.hard || c.zero) {
@@ -607,9 +772,14 @@ fn gen_history(g: &mut Gen, budget: usize, prop: &str) {
     // multi-step dependencies need consecutive steps on the SAME holder: stay on one for a burst
     let mut h = g.any_holder();
     let stick: u64 = *g.rng.pick(&[0u64, 50, 70, 85]);
+    let motif_pct: u64 = *g.rng.pick(&[0u64, 5, 15, 30]);
     while i < budget {
         if !g.rng.chance(stick, 100) {
             h = g.any_holder();
+        }
+        if prop != "C19" && g.rng.chance(motif_pct, 100) {
+            i += g.motif(h);
+            continue;
         }
         match g.rng.weighted(&w) {
             0 => g.edit(h, false),
@@ -654,7 +824,10 @@ fn gen_c13(g: &mut Gen, budget: usize) {
             if g.rng.chance(1, 3) {
                 h = g.any_holder();
             }
-            match g.rng.below(10) {
+            match g.rng.below(11) {
+                10 => {
+                    i += g.motif(h);
+                }
                 0..=4 => g.edit(h, false),
                 5..=6 => {
                     let ovf = g.rng.chance(1, 5);
